@@ -83,6 +83,14 @@ theorem withinBounds_iff (a : Addr) (k : Key) : withinBounds a k = true ↔ cove
 theorem mem_scan (a : Addr) (t : List Rec) (r : Rec) : r ∈ scan a t ↔ r ∈ t ∧ covers r.key a := by
   simp [scan, List.mem_filter, withinBounds_iff]
 
+/-- the gate of the multicast registry is interval membership in `IPV4_MULTICAST` … -/
+theorem isMulticast4_iff (v : Nat) : isMulticast4 v = true ↔ covers multicastNet ⟨4, v⟩ :=
+  withinBounds_iff _ _
+
+/-- … which, as shipped (regenerated on every run), is 224.0.0.0 – 239.255.255.255 -/
+theorem multicastNet_range : Key.first multicastNet = 0xE0000000 ∧ Key.last multicastNet = 0xEFFFFFFF ∧
+    Key.ver multicastNet = 4 := by decide
+
 /-- **query_exact**: `.info` returns exactly the records of each registry whose block or range
     contains the address — none missing, none extra; IPv4 addresses see the IPv4 registry and,
     iff they are multicast, the multicast registry; IPv6 addresses the two IPv6 registries. -/
@@ -103,7 +111,7 @@ theorem query_exact (T : Tables) (a : Addr) (r : Rec) :
     edges of the IPv4 multicast block that gates the multicast registry -/
 def breakpoints (T : Tables) : List Nat :=
   (T.ipv4 ++ T.ipv6 ++ T.ipv6u ++ T.mcast).flatMap (fun r => [Key.first r.key, Key.last r.key + 1]) ++
-    Gen.ipv4Multicast.flatMap (fun r => [r.2.2.1, r.2.2.2 + 1])
+    [Key.first multicastNet, Key.last multicastNet + 1]
 
 theorem covers_congr (k : Key) (a b : Addr) (hv : a.ver = b.ver) (hab : a.val ≤ b.val)
     (h1 : ¬ (a.val < Key.first k ∧ Key.first k ≤ b.val))
@@ -140,19 +148,10 @@ theorem query_piecewise_const (T : Tables) (a b : Addr) (hv : a.ver = b.ver) (ha
   have hm : isMulticast4 a.val = isMulticast4 b.val := by
     unfold isMulticast4
     apply Bool.eq_iff_iff.mpr
-    simp only [List.any_eq_true, Bool.and_eq_true, beq_iff_eq, decide_eq_true_eq]
-    have hrow : ∀ r ∈ Gen.ipv4Multicast, ¬ (a.val < r.2.2.1 ∧ r.2.2.1 ≤ b.val) ∧
-        ¬ (a.val < r.2.2.2 + 1 ∧ r.2.2.2 + 1 ≤ b.val) := by
-      intro r hr
-      constructor <;> apply hno <;> simp only [breakpoints, List.mem_append, List.mem_flatMap] <;>
-        exact Or.inr ⟨r, hr, by simp⟩
-    constructor
-    · rintro ⟨r, hr, ⟨h1, h2⟩, h3⟩
-      have := hrow r hr
-      exact ⟨r, hr, ⟨h1, by omega⟩, by omega⟩
-    · rintro ⟨r, hr, ⟨h1, h2⟩, h3⟩
-      have := hrow r hr
-      exact ⟨r, hr, ⟨h1, by omega⟩, by omega⟩
+    rw [withinBounds_iff, withinBounds_iff]
+    apply covers_congr multicastNet ⟨4, a.val⟩ ⟨4, b.val⟩ rfl hab
+    · apply hno; simp [breakpoints]
+    · apply hno; simp [breakpoints]
   unfold query
   rw [← hv, ← hm]
   rw [hrec T.ipv4 (by intro r hr; simp [hr]), hrec T.ipv6 (by intro r hr; simp [hr]),
